@@ -80,6 +80,8 @@ class T:
             if self.kw["exact"] and self.kw["cls"] in ip.schema.kinds.const:
                 ip.path.assume(ip.schema.kinds.is_kind(ref, self.kw["cls"]))
                 ip.path.kinds[str(ref)] = self.kw["cls"]
+                if isinstance((self.kw.get("known") or {}).get("op"), str):
+                    ip.schema.set_known_op(ip, ref, self.kw["known"]["op"])
             elif self.kw["cls"] in ip.src.classes and self.kw["cls"] != "object":
                 subs = [s for s in ip.src.subclasses(self.kw["cls"]) if s in ip.schema.kinds.const]
                 ip.path.assume(ip.schema.kinds.is_any(ref, subs))
@@ -625,6 +627,8 @@ def verify_function(src, registry: Registry, schema_factory, models, ct: Contrac
             schema = schema_factory()
             ip = Interp(src, path, registry, schema, models, under_proof=ct.key)
             ip.oid_prefix = f"{ct.key} / {cname}"
+            for g in getattr(registry, "global_inits", []):
+                g(ip)
             ip.cur_oid = lambda clause, ip=ip: f"{ip.oid_prefix} / {clause}"
             c = Ctx(ct, ip, "verify", case=case)
             ct.fn(c)
@@ -665,6 +669,9 @@ def verify_function(src, registry: Registry, schema_factory, models, ct: Contrac
                                 detail=str(val.args)[:80])
             for hook in c.on_exit:
                 hook(c, outcome, val)
+            # vacuity guard: the final path condition itself must be satisfiable
+            if path.check_sat() == "unsat":
+                raise Infeasible()
             return outcome, val
 
         try:
